@@ -14,12 +14,12 @@ KINDS = ["Standard", "Extended", "Symmetric", "Asymmetric"]
 NKINDS = ["Simplified", "Full", "ActiveSet"]
 
 
-def build(case, **kw):
+def build(case, record=None, **kw):
     from pygradflow.iterate import Iterate
     from pygradflow.params import Params
     from pygradflow.transform import Transformation
     spec = Spec.from_json(case["spec"])
-    prob = QuadProblem(spec, fmt=case.get("fmt", "coo"))
+    prob = QuadProblem(spec, fmt=case.get("fmt", "coo"), record=record)
     if case.get("active_tol") is not None:
         kw = dict(kw, active_tol=case["active_tol"])      # a tolerance of the KKT bookkeeping, not of the projection
     if case["trans"]:
@@ -273,6 +273,154 @@ class Newton(Unit):
                 return "box: StepResult put the new point outside the box at step %d" % k
         msg = dense_first_step(case, r, problem)
         return msg
+
+
+class GNewton(Unit):
+    """newton_method(...) with NewtonType.Globalized (Armijo line search) against LineSearch.v"""
+    name = "gnewton"
+    header = "From Verif Require Import CorrSearch."
+    check_fn = "check_gnewton"
+    tag_fn = "tag_gnewton"
+    exact_fn = "exact_gnewton"
+    shard = 30
+
+    def gen(self, g, tier):
+        cases = []
+        r = g.rng
+        for k in range(800 if tier == "thorough" else 200):
+            spec, trans, sc, xh, yh, x, y, dt, rho = gen_base(g, nmax=3, mmax=2)
+            if r.random() < 0.4:
+                dt = dt * 4.0
+                rho = rho * 4.0
+            kind = k % 4
+            tau = r.choice([None, None, None, 0.5, 1.0])
+            nv = len(xh)
+            style = r.random()
+            # after a step that was halved many times the next point has many bits, and the model's unreduced fractions
+            # make a further step cost minutes: the very long directions are single steps
+            nsteps = 1 if 0.25 <= style < 0.4 else r.choice([1, 1, 2, 3])
+            sols = []
+            for _ in range(nsteps):
+                s = g.vec(nv + spec.m, kmax=8, jmax=1)
+                if style < 0.15:                # long directions: the search has to backtrack
+                    s = [8.0 * v for v in s]
+                elif style < 0.4 and style >= 0.25:   # very long ones: accepted only after 10 to 20 halvings
+                    s = [2.0 ** r.randint(9, 18) * v for v in s]
+                elif style < 0.25:              # no direction at all: accepted at once with ip = 0
+                    s = [0.0 for _ in s]
+                sols.append(s)
+            tol = r.choice([1e-8, 1e-8, 1e-8, 2.0 ** -6, 1.0, 16.0])
+            case = {"spec": spec.to_json(), "sc": sc, "trans": trans, "xh": xh, "yh": yh, "dt": dt, "rho": rho,
+                    "kind": kind, "tau": tau, "tol": tol, "sols": sols, "fmt": r.choice(["coo", "csr", "csc"])}
+            if r.random() < 0.2:
+                # ties with newton_tol: the tolerance is the merit at the start, or at the point a first run accepts
+                # (the probe only chooses an input; what is compared is the run on that input)
+                m = self.probe(dict(case, tol=1e-8))
+                if m:
+                    case["tol"] = r.choice(m)
+            cases.append(case)
+        return cases
+
+    def probe(self, case):
+        try:
+            r = self.impl(case, merits=True)
+            return [v for v in r.get("merits", []) if v == v and 0.0 < v < 1e6]
+        except Exception:
+            return []
+
+    def impl(self, case, merits=False):
+        import pygradflow.linear_solver as LS
+        from pygradflow.iterate import Iterate
+        from pygradflow.newton import newton_method
+        from pygradflow.params import NewtonType, StepSolverType
+        pts = []
+        spec, problem, params = build(case, record=lambda what, x: pts.append((what, x)),
+                                      newton_type=NewtonType.Globalized, newton_tol=case["tol"],
+                                      step_solver_type=StepSolverType[KINDS[case["kind"]]])
+        ulb, uub = np.array(spec.lb, dtype=float), np.array(spec.ub, dtype=float)
+        rec = Recorder()
+        old = LS.linear_solver
+        LS.linear_solver = rec
+        try:
+            orig = Iterate(problem, params, np.array(case["xh"]), np.array(case["yh"]))
+            method = newton_method(problem, params, orig, case["dt"], case["rho"], case["tau"])
+            cur = orig
+            steps = []
+            seen = []
+            if merits:          # probe: the merit values the search looks at (start and every trial)
+                inner = method.func.value_at
+
+                def value_at(it, rho, active_set=None):
+                    F = inner(it, rho, active_set)
+                    if active_set is None:
+                        seen.append(float(0.5 * np.dot(F, F)))
+                    return F
+                method.func.value_at = value_at
+            for sol in case["sols"]:
+                rec.sol = sol
+                nsolves = len(rec.rhss)
+                try:
+                    res = method.step(cur)
+                except Exception as e:
+                    if "Line search failed" not in str(e) or len(rec.rhss) != nsolves + 1:
+                        raise
+                    steps.append({"M": rec.last_M, "rhs": rec.rhss[-1], "raised": True})
+                    break
+                nxt = res.iterate
+                steps.append({"M": rec.last_M, "rhs": rec.rhss[-1], "dx": fl(res.dx), "dy": fl(res.dy),
+                              "xn": fl(nxt.x), "yn": fl(nxt.y), "solves": len(rec.rhss) - nsolves})
+                cur = nxt
+            outside = [(what, fl(x)) for what, x in pts if np.any(x < ulb) or np.any(x > uub)]
+            out = {"steps": steps, "evals": len(pts), "outside": outside[:1]}
+            if merits:
+                out["merits"] = seen
+            return out
+        finally:
+            LS.linear_solver = old
+
+    def term(self, case, r):
+        spec = Spec.from_json(case["spec"])
+        steps = r.get("steps", [{"M": [], "rhs": [12345.0], "raised": True}])
+
+        def one(s):
+            if s.get("raised"):
+                return "(%s, %s, None)" % (cmat(s["M"]), cvec(s["rhs"]))
+            return "(%s, %s, Some (%s, %s, %s, %s))" % (cmat(s["M"]), cvec(s["rhs"]), cvec(s["dx"]), cvec(s["dy"]),
+                                                        cvec(s["xn"]), cvec(s["yn"]))
+        return ("(mk_gcase %s %s %s %s %s %s %s %s %s %s %s %s)"
+                % (spec.to_coq(), csc(case["sc"]), cb(case["trans"]), cvec(case["xh"]), cvec(case["yh"]),
+                   cq(case["dt"]), cq(case["rho"]), cn(case["kind"]), copt(case["tau"], cq), cq(case["tol"]),
+                   clist([cvec(s) for s in case["sols"]]), clist([one(s) for s in steps])))
+
+    def tag_name(self, t):
+        trials = (t // 10) % 10
+        return "%s,%s" % (KINDS[t % 10], "raised" if t >= 100 else
+                          ("early_return" if trials == 0 else "trials=%s" % (str(trials) if trials < 9 else ">=9")))
+
+    def nontrivial(self, case, r, t):
+        return t is not None and (t // 10) % 10 >= 2
+
+    def oracle(self, case, r):
+        """C05 on what the implementation did: every point the step hands on is in the box, and the linear solver
+        is asked exactly once per step"""
+        if "exc" in r:
+            return "globalized step raised %s: %s" % (r["exc"], r.get("msg"))
+        if r.get("outside"):
+            return "evaluated: the user's %s was evaluated at %s, outside the variable bounds" % tuple(r["outside"][0])
+        spec, problem, params = build(case)
+        lb, ub = problem.var_lb, problem.var_ub
+        for k, s in enumerate(r["steps"]):
+            if s.get("raised"):
+                continue
+            xn = np.array(s["xn"])
+            if np.any(xn < lb) or np.any(xn > ub):
+                return "box: the globalized step put the new point outside the box at step %d" % k
+            if s["solves"] != 1:
+                return "solves: the globalized step asked the linear solver %d times in step %d" % (s["solves"], k)
+        return None
+
+    def key(self, case, r):
+        return "gnewton:" + (self.oracle(case, r) or "mismatch").split(":")[0]
 
 
 def dense_first_step(case, r, problem):
